@@ -1,16 +1,16 @@
 """C13 - diffs can be reversed and composed"""
-from props import comps_uord, oracles
+from props import comps_difftree, comps_uord, oracles
 
 PID = "C13"
 LEVEL = "proof"
 
 
 def components():
-    return [comps_uord.UDiff()]
+    return [comps_uord.UDiff(), comps_difftree.DiffTree("C13")]
 
 
 def oracles_():
-    return [comps_uord.UordReverseOracle(), oracles.DiffRev(), oracles.DiffUordRev()]
+    return [comps_difftree.KeepStream(), comps_uord.UordReverseOracle(), oracles.DiffRev(), oracles.DiffUordRev(), comps_difftree.DiffTreeLaws("C13")]
 
 
 MANIFEST = {
@@ -18,7 +18,19 @@ MANIFEST = {
             "statement is refuted with witnesses (reverse_apply_userord_refuted*, every reversed diff containing a delete fails), "
             "the provable fragment is proved (no delete, at most one move: reverse_apply_userord_partial). Tie: extracted model vs "
             "the real reverse+apply (T2). Reversal/merge/merge-undo for leaves, containers, choices and system-ordered lists at any "
-            "depth are checked by the API oracle on generated triples (search); user-ordered reversal is a listed known finding.",
-    "note": "Modelled C: lyd_diff_reverse_all restricted to one user-ordered leaf-list. lyd_diff_merge_* is not modelled in Coq.",
+            "depth are checked by the API oracle on generated triples (search); user-ordered reversal is a listed known finding. "
+            "TREE level, everything that is not user-ordered (Properties_C13_difftree.v, closed): C13_reverse_apply (for all well-formed "
+            "A,B reverse(diff(A,B)) succeeds and applied to B yields A exactly, flags included), C13_reverse_meaning (reversal exchanges "
+            "the roles of the trees for every diff that describes the change, whatever its sibling order), C13_reverse_involutive_refuted "
+            "/ _partial (reverse twice loses the default flag of duplicated parents in the diff tree but keeps the meaning), "
+            "C13_merge_apply_refuted (witness: merging a none that turns leaves into defaults into a create leaves the created "
+            "non-presence containers explicit - finding merge-npcont-dflt, reproduced on libyang). Tie: the extracted models of "
+            "lyd_diff_reverse_all and lyd_diff_merge_all (whole merge table, redundancy removal, both merge options) must print the same "
+            "reversed / merged diff trees and the same patched trees as libyang on generated triples built to hit every cell (T2 "
+            "dtree-C13); the laws are also judged on the implementation by dump equality (difftree-laws-C13).",
+    "note": "Modelled C: lyd_diff_reverse_all restricted to one user-ordered leaf-list. Tree level (slice difftree): lyd_diff_reverse_all (incl. lyd_diff_reverse_value/_default, "
+            "the ignored error of lyd_diff_reverse_remove_op_r), lyd_diff_merge_r with lyd_diff_merge_none/_replace/_create/_delete, "
+            "lyd_diff_is_redundant and the default-flag walks in the diff tree. The composition law (merge_apply) and merge_undo have no "
+            "general proof: the former is refuted as stated, both are tied by T2 + the dump-level oracle only.",
     "technique": "Coq proof/refutation on list-level model + differential correspondence + API metamorphic oracle",
 }
